@@ -1114,6 +1114,301 @@ Corollary run_from_st0 : forall subs ops, run_ok (st0 subs) ops ->
   Inv (fst (run (st0 subs) ops)) /\ snd (run (st0 subs) ops) = true.
 Proof. intros subs ops H. apply run_inv; [apply inv_st0 | exact H]. Qed.
 
+(* ------------------------------------------------------------------ *)
+(* 9. list assignment (ListWrapper.__setitem__ / insert on ir.modules) *)
+(* ------------------------------------------------------------------ *)
+
+(* leavers out first (in list order), then the enterers in (in list order; an enterer held by another IR leaves it) *)
+Definition assign (s : st) (ir : Z) (new : list id) : st * bool :=
+  let old := members (irs s ir) in
+  let '(s1, ok1) := fold_ok (fun s x => discard s ir x) (filter (fun x => negb (mem x new)) old) s in
+  let '(s2, ok2) := fold_ok (fun s x => add s ir x) (filter (fun x => negb (mem x old)) new) s1 in
+  (s2, ok1 && ok2).
+
+Lemma assign_eq : forall s ir new,
+  assign s ir new =
+  (fst (fold_ok (fun s0 x => add s0 ir x)
+          (filter (fun x => negb (mem x (members (irs s ir)))) new)
+          (fst (fold_ok (fun s0 x => discard s0 ir x)
+                  (filter (fun x => negb (mem x new)) (members (irs s ir))) s))),
+   snd (fold_ok (fun s0 x => discard s0 ir x)
+          (filter (fun x => negb (mem x new)) (members (irs s ir))) s) &&
+   snd (fold_ok (fun s0 x => add s0 ir x)
+          (filter (fun x => negb (mem x (members (irs s ir)))) new)
+          (fst (fold_ok (fun s0 x => discard s0 ir x)
+                  (filter (fun x => negb (mem x new)) (members (irs s ir))) s)))).
+Proof.
+  intros s ir new. unfold assign. cbv zeta.
+  destruct (fold_ok (fun s0 x => discard s0 ir x)
+              (filter (fun x => negb (mem x new)) (members (irs s ir))) s) as [s1 ok1].
+  cbn [fst snd].
+  destruct (fold_ok (fun s0 x => add s0 ir x)
+              (filter (fun x => negb (mem x (members (irs s ir)))) new) s1) as [s2 ok2].
+  reflexivity.
+Qed.
+
+(* distinct UUIDs are inherited by every duplicate-free list drawn from the same elements *)
+Lemma nodup_keys_incl : forall (f : id -> tree) (l l' : list id),
+  NoDup (map fst (flat_map f l)) -> NoDup l' -> (forall x, In x l' -> In x l) ->
+  NoDup (map fst (flat_map f l')).
+Proof.
+  intros f l l' Hnd. induction l' as [|a l' IH]; intros Hndl Hincl; cbn [flat_map]; [constructor|].
+  inversion Hndl as [|a' l'' Hnin Hndl']; subst.
+  rewrite map_app. apply nodup_app. split; [|split].
+  - apply (nodup_keys_elem f l); [exact Hnd | apply Hincl; left; reflexivity].
+  - apply IH; [exact Hndl'|]. intros x Hx. apply Hincl. right. exact Hx.
+  - intros u Hu Hin. apply in_keys_flat_map in Hin. destruct Hin as [y [Hy Hyu]].
+    apply (keys_disjoint f l a y u Hnd); [apply Hincl; left; reflexivity | apply Hincl; right; exact Hy | | exact Hu | exact Hyu].
+    intros ->. exact (Hnin Hy).
+Qed.
+
+(* --- the bookkeeping alone (`owned`, who is a member where) needs nothing about UUIDs --- *)
+
+Lemma discard_owned : forall s ir x, owned s -> owned (fst (discard s ir x)).
+Proof.
+  intros s ir x Hown. destruct (mem x (members (irs s ir))) eqn:E.
+  2:{ rewrite discard_nonmember by exact E. exact Hown. }
+  rewrite discard_member by exact E. apply mem_spec in E.
+  intros y ir'. cbn [fst owner irs].
+  destruct (Z.eq_dec y x) as [->|Hyx].
+  - rewrite (upd_same _ (owner s)). split; [discriminate|]. intros Hin. exfalso.
+    destruct (Z.eq_dec ir' ir) as [->|Hne].
+    + rewrite (upd_same _ (irs s)) in Hin. cbn [members] in Hin. apply In_remove_id in Hin.
+      destruct Hin as [_ Hc]. apply Hc. reflexivity.
+    + rewrite (upd_other _ (irs s) ir _ ir' Hne) in Hin. apply Hown in Hin. apply Hown in E. rewrite E in Hin.
+      inversion Hin as [Heq]. apply Hne. symmetry. exact Heq.
+  - rewrite (upd_other _ (owner s) x None y Hyx). destruct (Z.eq_dec ir' ir) as [->|Hne].
+    + rewrite (upd_same _ (irs s)). cbn [members]. split.
+      * intros Ho. apply In_remove_id. split; [apply Hown; exact Ho | exact Hyx].
+      * intros Hin. apply In_remove_id in Hin. apply Hown. apply Hin.
+    + rewrite (upd_other _ (irs s) ir _ ir' Hne). apply Hown.
+Qed.
+
+Lemma pre_owned : forall s x, owned s ->
+  owned (fst (pre s x)) /\ owner (fst (pre s x)) x = None /\
+  (forall ir y, In y (members (irs (fst (pre s x)) ir)) <-> In y (members (irs s ir)) /\ y <> x).
+Proof.
+  intros s x Hown. unfold pre. destruct (owner s x) as [o|] eqn:Eo.
+  - assert (Hxo : In x (members (irs s o))) by (apply Hown; exact Eo).
+    split; [apply discard_owned; exact Hown|]. split.
+    + rewrite discard_member by (apply mem_spec; exact Hxo). cbn [fst owner]. apply upd_same.
+    + intros ir y. destruct (Z.eq_dec ir o) as [->|Hne]; [apply discard_members|].
+      rewrite discard_other_ir_untouched by exact Hne.
+      split; [|intros [H _]; exact H]. intros H. split; [exact H|]. intros ->.
+      apply Hown in H. rewrite H in Eo. inversion Eo as [Heq]. exact (Hne Heq).
+  - cbn [fst]. split; [exact Hown|]. split; [exact Eo|].
+    intros ir y. split; [|intros [H _]; exact H]. intros H. split; [exact H|]. intros ->.
+    apply Hown in H. rewrite H in Eo. discriminate.
+Qed.
+
+Lemma add_core_owned : forall s ir x, owned s -> owner s x = None -> owned (add_core s ir x).
+Proof.
+  intros s ir x Hown Hox.
+  assert (Hsame : irs (add_core s ir x) ir
+                  = {| members := x :: remove_id x (members (irs s ir));
+                       cache := register (cache (irs s ir)) (sub s x) |}).
+  { unfold add_core. cbn [irs]. apply upd_same. }
+  assert (Hoth : forall ir', ir' <> ir -> irs (add_core s ir x) ir' = irs s ir').
+  { intros ir' Hne. unfold add_core. cbn [irs]. apply upd_other. exact Hne. }
+  assert (Hownr : forall y, owner (add_core s ir x) y = if y =? x then Some ir else owner s y) by reflexivity.
+  intros y ir'. rewrite Hownr. destruct (Z.eqb_spec y x) as [->|Hyx].
+  - destruct (Z.eq_dec ir' ir) as [->|Hne].
+    + rewrite Hsame. cbn [members]. split; [intros _; left; reflexivity | reflexivity].
+    + rewrite (Hoth ir' Hne). split.
+      * intros Heq. inversion Heq as [Heq']. exfalso. apply Hne. symmetry. exact Heq'.
+      * intros Hin. apply Hown in Hin. rewrite Hin in Hox. discriminate.
+  - destruct (Z.eq_dec ir' ir) as [->|Hne].
+    + rewrite Hsame. cbn [members]. split.
+      * intros Ho. right. apply In_remove_id. split; [apply Hown; exact Ho | exact Hyx].
+      * intros [Heq|Hin]; [exfalso; apply Hyx; symmetry; exact Heq|].
+        apply In_remove_id in Hin. apply Hown. apply Hin.
+    + rewrite (Hoth ir' Hne). apply Hown.
+Qed.
+
+Lemma add_owned : forall s ir x, owned s ->
+  owned (fst (add s ir x)) /\
+  (forall y, In y (members (irs (fst (add s ir x)) ir)) <-> y = x \/ In y (members (irs s ir))) /\
+  (forall ir' y, ir' <> ir ->
+     In y (members (irs (fst (add s ir x)) ir')) <-> In y (members (irs s ir')) /\ y <> x).
+Proof.
+  intros s ir x Hown. rewrite add_eq. cbn [fst].
+  destruct (pre_owned s x Hown) as (Hown1 & Hox1 & Hm1).
+  split; [apply add_core_owned; assumption|]. split.
+  - intros y. unfold add_core. cbn [irs]. rewrite upd_same. cbn [members]. split.
+    + intros [Heq|Hin]; [left; symmetry; exact Heq|].
+      apply In_remove_id in Hin. destruct Hin as [Hin _]. apply Hm1 in Hin. right. apply Hin.
+    + intros [Heq|Hin]; [left; symmetry; exact Heq|].
+      destruct (Z.eq_dec y x) as [Heq|Hne]; [left; symmetry; exact Heq|].
+      right. apply In_remove_id. split; [|exact Hne]. apply Hm1. split; assumption.
+  - intros ir' y Hne. unfold add_core. cbn [irs]. rewrite upd_other by exact Hne. apply Hm1.
+Qed.
+
+Lemma fold_discard_owned : forall ir l s, owned s ->
+  owned (fst (fold_ok (fun s0 x => discard s0 ir x) l s)) /\
+  (forall y, In y (members (irs (fst (fold_ok (fun s0 x => discard s0 ir x) l s)) ir))
+             <-> In y (members (irs s ir)) /\ ~ In y l) /\
+  (forall ir', ir' <> ir -> irs (fst (fold_ok (fun s0 x => discard s0 ir x) l s)) ir' = irs s ir').
+Proof.
+  intros ir. induction l as [|x l IH]; intros s Hown.
+  - rewrite fold_ok_nil. cbn [fst]. split; [exact Hown|]. split; [|reflexivity].
+    intros y. split; [intros H; split; [exact H | intros []] | intros [H _]; exact H].
+  - rewrite fold_ok_cons. cbn [fst].
+    destruct (IH _ (discard_owned s ir x Hown)) as (Hown2 & Hm2 & Hoth2).
+    split; [exact Hown2|].
+    split; [|intros ir' Hne; rewrite (Hoth2 ir' Hne); apply discard_other_ir_untouched; exact Hne].
+    intros y. split.
+    + intros H. apply Hm2 in H. destruct H as [H Hnl]. apply discard_members in H. destruct H as [H Hne].
+      split; [exact H|]. intros [Heq|Hin]; [apply Hne; symmetry; exact Heq | exact (Hnl Hin)].
+    + intros [H Hnl]. apply Hm2. split.
+      * apply discard_members. split; [exact H|]. intros ->. apply Hnl. left. reflexivity.
+      * intros Hin. apply Hnl. right. exact Hin.
+Qed.
+
+Lemma fold_add_owned : forall ir l s, owned s ->
+  owned (fst (fold_ok (fun s0 x => add s0 ir x) l s)) /\
+  (forall y, In y (members (irs (fst (fold_ok (fun s0 x => add s0 ir x) l s)) ir))
+             <-> In y l \/ In y (members (irs s ir))) /\
+  (forall ir' y, ir' <> ir ->
+             In y (members (irs (fst (fold_ok (fun s0 x => add s0 ir x) l s)) ir'))
+             <-> In y (members (irs s ir')) /\ ~ In y l).
+Proof.
+  intros ir. induction l as [|x l IH]; intros s Hown.
+  - rewrite fold_ok_nil. cbn [fst]. split; [exact Hown|]. split.
+    + intros y. split; [intros H; right; exact H | intros [[]|H]; exact H].
+    + intros ir' y _. split; [intros H; split; [exact H | intros []] | intros [H _]; exact H].
+  - rewrite fold_ok_cons. cbn [fst].
+    destruct (add_owned s ir x Hown) as (Hown1 & Hm1 & Hmo1).
+    destruct (IH _ Hown1) as (Hown2 & Hm2 & Hmo2).
+    split; [exact Hown2|]. split.
+    + intros y. split.
+      * intros H. apply Hm2 in H. destruct H as [H|H]; [left; right; exact H|].
+        apply Hm1 in H. destruct H as [->|H]; [left; left; reflexivity | right; exact H].
+      * intros H. apply Hm2. destruct H as [[Heq|H]|H].
+        -- right. apply Hm1. left. symmetry. exact Heq.
+        -- left. exact H.
+        -- right. apply Hm1. right. exact H.
+    + intros ir' y Hne. split.
+      * intros H. apply (Hmo2 ir' y Hne) in H. destruct H as [H Hn].
+        apply (Hmo1 ir' y Hne) in H. destruct H as [H Hyx]. split; [exact H|].
+        intros [Heq|Hin]; [apply Hyx; symmetry; exact Heq | exact (Hn Hin)].
+      * intros [H Hn]. apply (Hmo2 ir' y Hne). split.
+        -- apply (Hmo1 ir' y Hne). split; [exact H|]. intros ->. apply Hn. left. reflexivity.
+        -- intros Hin. apply Hn. right. exact Hin.
+Qed.
+
+(* who is where after an assignment: no premise about UUIDs (the bookkeeping never looks at the tables) *)
+Lemma assign_members : forall s ir new, owned s ->
+  owned (fst (assign s ir new)) /\
+  (forall x, In x (members (irs (fst (assign s ir new)) ir)) <-> In x new) /\
+  (forall ir' y, ir' <> ir ->
+     In y (members (irs (fst (assign s ir new)) ir')) <-> In y (members (irs s ir')) /\ ~ In y new).
+Proof.
+  intros s ir new Hown. rewrite assign_eq. cbn [fst].
+  set (L1 := filter (fun x => negb (mem x new)) (members (irs s ir))).
+  set (L2 := filter (fun x => negb (mem x (members (irs s ir)))) new).
+  destruct (fold_discard_owned ir L1 s Hown) as (Hown1 & Hm1 & Hoth1).
+  set (s1 := fst (fold_ok (fun s0 x => discard s0 ir x) L1 s)) in *.
+  destruct (fold_add_owned ir L2 s1 Hown1) as (Hown2 & Hm2 & Hmo2).
+  assert (HL1 : forall x, In x L1 <-> In x (members (irs s ir)) /\ ~ In x new).
+  { intros x. unfold L1. rewrite filter_In, negb_true_iff, mem_false. reflexivity. }
+  assert (HL2 : forall x, In x L2 <-> In x new /\ ~ In x (members (irs s ir))).
+  { intros x. unfold L2. rewrite filter_In, negb_true_iff, mem_false. reflexivity. }
+  split; [exact Hown2|]. split.
+  - intros x. split.
+    + intros H. apply Hm2 in H. destruct H as [H|H]; [apply HL2 in H; apply H|].
+      apply Hm1 in H. destruct H as [H Hn]. destruct (mem x new) eqn:E; [apply mem_spec; exact E|].
+      exfalso. apply Hn. apply HL1. split; [exact H | apply mem_false; exact E].
+    + intros H. apply Hm2. destruct (mem x (members (irs s ir))) eqn:E.
+      * right. apply mem_spec in E. apply Hm1. split; [exact E|]. intros Hl. apply HL1 in Hl.
+        destruct Hl as [_ Hl]. exact (Hl H).
+      * left. apply HL2. split; [exact H | apply mem_false; exact E].
+  - intros ir' y Hne. split.
+    + intros H. apply (Hmo2 ir' y Hne) in H. destruct H as [H Hn]. rewrite (Hoth1 ir' Hne) in H.
+      split; [exact H|]. intros Ha. apply Hn. apply HL2. split; [exact Ha|].
+      intros Hin. apply Hown in H. apply Hown in Hin. rewrite H in Hin. inversion Hin as [Heq]. exact (Hne Heq).
+    + intros [H Hn]. apply (Hmo2 ir' y Hne). rewrite (Hoth1 ir' Hne). split; [exact H|].
+      intros Hin. apply HL2 in Hin. apply Hn. apply Hin.
+Qed.
+
+(* the tables: the only premise is that the members AFTER the assignment carry pairwise distinct UUIDs
+   (`NoDup new` is not needed, and nothing is assumed about an enterer's UUIDs versus those of the leavers) *)
+Lemma assign_full : forall s ir new, Inv s ->
+  NoDup (map fst (flat_map (sub s) new)) ->
+  Inv (fst (assign s ir new)) /\ snd (assign s ir new) = true /\ sub (fst (assign s ir new)) = sub s.
+Proof.
+  intros s ir new HI Hfin. rewrite assign_eq. cbn [fst snd].
+  set (L1 := filter (fun x => negb (mem x new)) (members (irs s ir))).
+  set (L2 := filter (fun x => negb (mem x (members (irs s ir)))) new).
+  destruct (fold_discard_inv ir L1 s HI) as (HI1 & Hok1 & Hsub1 & Hm1 & Hoth1).
+  set (s1 := fst (fold_ok (fun s0 x => discard s0 ir x) L1 s)) in *.
+  assert (HL2 : forall x, In x L2 -> In x new).
+  { intros x Hx. unfold L2 in Hx. apply filter_In in Hx. apply Hx. }
+  assert (Hsurv : forall y, In y (members (irs s1 ir)) -> In y new).
+  { intros y H. apply Hm1 in H. destruct H as [H Hn]. destruct (mem y new) eqn:E; [apply mem_spec; exact E|].
+    exfalso. apply Hn. unfold L1. apply filter_In. split; [exact H|]. rewrite E. reflexivity. }
+  destruct (fold_add_inv ir L2 s1 HI1) as (HI2 & Hok2 & Hsub2 & _ & _).
+  - intros x Hx. rewrite Hsub1. apply (nodup_keys_elem (sub s) new); [exact Hfin | apply HL2; exact Hx].
+  - intros x y u Hx Hy Hne. rewrite Hsub1.
+    apply (keys_disjoint (sub s) new x y u Hfin); [apply HL2; exact Hx | | exact Hne].
+    destruct Hy as [Hy|Hy]; [apply HL2; exact Hy | apply Hsurv; exact Hy].
+  - split; [exact HI2|]. split; [rewrite Hok1, Hok2; reflexivity|]. rewrite Hsub2. exact Hsub1.
+Qed.
+
+Theorem assign_inv : forall s ir new, Inv s -> NoDup new ->
+  (forall x, In x new -> NoDup (map fst (sub s x))) ->
+  NoDup (map fst (flat_map (sub s) new)) ->
+  Inv (fst (assign s ir new)) /\ snd (assign s ir new) = true /\
+  (forall x, In x (members (irs (fst (assign s ir new)) ir)) <-> In x new).
+Proof.
+  intros s ir new HI _ _ Hfin.
+  destruct (assign_full s ir new HI Hfin) as (H1 & H2 & _).
+  destruct (assign_members s ir new (proj1 HI)) as (_ & H3 & _).
+  split; [exact H1|]. split; [exact H2 | exact H3].
+Qed.
+
+Theorem assign_other_irs : forall s ir ir' new, Inv s -> ir' <> ir ->
+  forall y, In y (members (irs (fst (assign s ir new)) ir')) <->
+            In y (members (irs s ir')) /\ ~ (In y new /\ ~ In y (members (irs s ir))).
+Proof.
+  intros s ir ir' new HI Hne y.
+  destruct (assign_members s ir new (proj1 HI)) as (_ & _ & H3). rewrite (H3 ir' y Hne). split.
+  - intros [H Hn]. split; [exact H|]. intros [Ha _]. exact (Hn Ha).
+  - intros [H Hn]. split; [exact H|]. intros Ha. apply Hn. split; [exact Ha|].
+    intros Hin. apply (proj1 HI) in H. apply (proj1 HI) in Hin. rewrite H in Hin.
+    inversion Hin as [Heq]. exact (Hne Heq).
+Qed.
+
+(* the same fact without the redundant clause: another IR loses exactly its elements named by `new` *)
+Theorem assign_other_irs_simple : forall s ir ir' new, Inv s -> ir' <> ir ->
+  forall y, In y (members (irs (fst (assign s ir new)) ir')) <-> In y (members (irs s ir')) /\ ~ In y new.
+Proof.
+  intros s ir ir' new HI Hne y.
+  destruct (assign_members s ir new (proj1 HI)) as (_ & _ & H3). exact (H3 ir' y Hne).
+Qed.
+
+(* ir1.modules[0] = twin: the list item of IR 1 is replaced by its equal-UUID twin held by IR 2 *)
+Example assign_twin_s6 :
+  Inv (fst (assign s6 1 [2])) /\ snd (assign s6 1 [2]) = true /\
+  members (irs (fst (assign s6 1 [2])) 1) = [2] /\
+  members (irs (fst (assign s6 1 [2])) 2) = [] /\
+  lookup (fst (assign s6 1 [2])) 1 100 = Some 2 /\
+  lookup (fst (assign s6 1 [2])) 1 101 = Some 12 /\
+  lookup (fst (assign s6 1 [2])) 2 100 = None.
+Proof.
+  split.
+  - apply (assign_inv s6 1 [2] inv_s6).
+    + nodup_tac.
+    + intros x [<-|[]]. vm_compute. nodup_tac.
+    + vm_compute. nodup_tac.
+  - vm_compute. repeat split.
+Qed.
+
+(* the order of the hooks matters: the twin entering BEFORE its counterpart leaves loses the twin's UUIDs *)
+Example assign_enter_first_wrong :
+  let s' := fst (discard (fst (add s6 1 2)) 1 1) in
+  members (irs s' 1) = [2] /\ lookup s' 1 100 = None /\ snd (discard s' 1 2) = false.
+Proof. vm_compute. repeat split. Qed.
+
 Print Assumptions inv_st0.
 Print Assumptions discard_inv.
 Print Assumptions add_inv.
@@ -1131,3 +1426,11 @@ Print Assumptions tstep_inv.
 Print Assumptions run_inv.
 Print Assumptions run_all_steps.
 Print Assumptions run_from_st0.
+Print Assumptions assign_inv.
+Print Assumptions assign_other_irs.
+Print Assumptions assign_other_irs_simple.
+Print Assumptions assign_members.
+Print Assumptions assign_full.
+Print Assumptions nodup_keys_incl.
+Print Assumptions assign_twin_s6.
+Print Assumptions assign_enter_first_wrong.
